@@ -419,7 +419,7 @@ func (fr *Frame) encodeFindStringIndex(x *ssa.Call) {
 	i0, i1 := sel(arr, "0"), sel(arr, "1")
 	isNil := eq(res.T, "(mk-slice 0 0 0)")
 	nonNil := eq(res.T, "(mk-slice "+a+" 2 2)")
-	var sems []string
+	var sems, extras []string
 	for _, lit := range fr.e.p.regexLiterals() {
 		m := classRe.FindStringSubmatch(lit)
 		cls, err := smtClass(m[1])
@@ -438,15 +438,33 @@ func (fr *Frame) encodeFindStringIndex(x *ssa.Call) {
 			none := "(str.in_re " + s.T + " (re.* (re.diff re.allchar " + cls + ")))"
 			sem = "(ite " + none + " " + isNil + " " + and(nonNil, "(<= 0 "+i0+")", "(< "+i0+" "+i1+")", "(<= "+i1+" "+L+")",
 				"(str.in_re (str.substr "+s.T+" 0 "+i0+") (re.* (re.diff re.allchar "+cls+")))",
-				"(str.in_re (str.substr "+s.T+" "+i0+" (- "+i1+" "+i0+")) (re.+ "+cls+"))", endOK) + ")"
+				"(str.in_re (str.substr "+s.T+" "+i0+" (- "+i1+" "+i0+")) (re.+ "+cls+"))",
+				// (the same fact for a match at 0, spelled with the term the code builds: s[0:i1])
+				implies(eq(i0, "0"), "(str.in_re (str.substr "+s.T+" 0 "+i1+") (re.+ "+cls+"))"), endOK) + ")"
 		}
 		// the match as a function of the string: classRun(s) is THE maximal prefix of class characters (the spec
 		// function contracts use; determinism of the match is part of the assumed contract of regexp)
 		// the first and the last character of a non-empty match are class characters (consequences of the above that
 		// the string solvers do not derive quickly by themselves)
 		sems = append(sems, implies(eq(rx.T, smtString(lit)), sem))
+		// the same match in terms of the spec function runLen (the reference lexer of C05 is written with it): on
+		// "[c]*" the match is [0, runLen(s)]; on "[c]+" the leftmost match starts at 0 iff runLen(s) > 0 and then ends
+		// at runLen(s).  Visible to the obligations of the lexical properties only.
+		rl := runLenApp(vc, m[1], s.T)
+		var ext string
+		if m[2] == "*" {
+			ext = eq(i1, rl)
+		} else {
+			ext = and(eq(and(nonNil, eq(i0, "0")), "(> "+rl+" 0)"), implies(and(nonNil, eq(i0, "0")), eq(i1, rl)))
+		}
+		extras = append(extras, implies(eq(rx.T, smtString(lit)), ext))
 	}
+	// reading the fresh result array back (a consequence of M' = store(M, a, arr), spelled out because the string back
+	// end does not combine nested-array reasoning with string reasoning in reasonable time)
+	M2 := fr.getMem(elemMem(ity), elemMemSort(ity))
+	sems = append(sems, implies(eq("(s-arr "+res.T+")", a), and(eq(sel(sel(M2, "(s-arr "+res.T+")"), "0"), i0), eq(sel(sel(M2, "(s-arr "+res.T+")"), "1"), i1))))
 	fr.assumeHere(and(sems...), "fsi")
+	vc.assumeScoped(implies(fr.reach, and(extras...)), []string{"C05", "C08", "C09"})
 }
 
 // classRunFn declares (once per VC) the spec function "maximal prefix of characters of a class" with its
@@ -487,6 +505,38 @@ func classRunApp(vc *VC, classBody, arg string, instances bool) string {
 			vc.classAxioms = append(vc.classAxioms, fmt.Sprintf("(and (str.prefixof %s %s) (str.in_re %s (re.* %s)) (or (= (str.len %s) (str.len %s)) (not (str.in_re (str.at %s (str.len %s)) %s))))",
 				r, arg, r, cls, r, arg, arg, r, cls))
 		}
+	}
+	return r
+}
+
+// runLenApp: runLen_c(arg), the length of the maximal prefix of class characters, an uninterpreted function
+// characterised by: 0 <= r <= len(s), s[0:r] consists of class characters, and s[r] (if any) is not one.  These three
+// facts determine r uniquely, so the axiom is a definition.  Ground instances of the bounds are recorded for the
+// quantifier-free weakening.
+func runLenApp(vc *VC, classBody, arg string) string {
+	name := "runLen_" + classKey(classBody)
+	cls, err := smtClass(classBody)
+	if err != nil {
+		vc.addErr("%v", err)
+		return "0"
+	}
+	if !vc.declSet[name] {
+		vc.declareFun(name, []string{"String"}, "Int")
+		x := fmt.Sprintf("x$%d", vc.nextBound())
+		r := "(" + name + " " + x + ")"
+		vc.classAxioms = append(vc.classAxioms, fmt.Sprintf("(forall ((%s String)) (! (and (<= 0 %s) (<= %s (str.len %s)) (str.in_re (str.substr %s 0 %s) (re.* %s)) (or (= %s (str.len %s)) (not (str.in_re (str.at %s %s) %s)))) :pattern (%s)))",
+			x, r, r, x, x, r, cls, r, x, x, r, cls, r))
+	}
+	r := "(" + name + " " + arg + ")"
+	if strings.Contains(arg, "$") {
+		return r
+	}
+	if vc.classInst == nil {
+		vc.classInst = map[string]bool{}
+	}
+	if !vc.classInst[r] {
+		vc.classInst[r] = true
+		vc.classAxioms = append(vc.classAxioms, fmt.Sprintf("(and (<= 0 %s) (<= %s (str.len %s)))", r, r, arg))
 	}
 	return r
 }
@@ -1124,6 +1174,14 @@ func (fr *Frame) inlineCall(x *ssa.Call, callee *ssa.Function, ord int) {
 	for i, prm := range callee.Params {
 		ch.vals[prm] = args[i]
 	}
+	// call-site assertions may be attached to an inlined call too ("call": before it; "after": in the state after it)
+	fr.callAssertsPhase(x, name, ord, false)
+	ch.reach = fr.reach
+	defer func() {
+		if fr.reach != "false" {
+			fr.callAssertsPhase(x, name, ord, true)
+		}
+	}()
 	// nested closures / addresses of argument values are not passed through
 	ch.encodeBody()
 	if len(ch.rets) == 0 {
